@@ -105,6 +105,32 @@ def numeric_out_params(fb):
     return out
 
 
+def numeric_returners(fb):
+    """{qualified function name}: functions that hand a number parsed from peer text back as their RESULT (plain or wrapped in an optional / pair) —
+    a root return mentions a local that std::from_chars (or a numeric out-parameter of a wrapper) wrote.  The sibling of numeric_out_params for the
+    `std::optional<uint64_t> parse(b, e)` spelling of `bool parse(b, e, out&)`."""
+    c = fb.__dict__.get("_c15_nret")
+    if c is not None:
+        return c
+    nop = numeric_out_params(fb)
+    out = set()
+    for g in fb.functions:
+        if not g.ok or not g.file.endswith((HSF, HCF, HMF)):
+            continue
+        written = set()
+        for n in g.nodes.values():
+            if n.get("k") in ("call", "mcall"):
+                cal = n.get("callee", "")
+                for i, a in enumerate(n.get("args", [])):
+                    a = strip_casts(a)
+                    if a is not None and a.get("k") == "var" and a.get("parm") is None and ((cal == "std::from_chars" and i == 2) or (cal, i) in nop):
+                        written.add(_vid(a))
+        if written and any(x.get("k") == "var" and _vid(x) in written for e in common.returns(g) if "root" in e.raw for x in walk(e.node)):
+            out.add(g.name)
+    fb.__dict__["_c15_nret"] = out
+    return out
+
+
 def _out_args(fb, n):
     """argument nodes of call n that the callee may write: by-reference non-const parameters of a callee whose definition is known,
     the value argument of std::from_chars; for an unknown non-std callee every plain variable argument (conservative)"""
@@ -283,9 +309,11 @@ def length_sources(fb, f):
                     out.append((e, key_of(a)))
         vals = [(v["n"], v.get("init")) for v in n["vars"]] if k == "decl" else ([(key_of(asg(n)[0]), asg(n)[1])] if asg(n) and key_of(asg(n)[0]) else [])
         for (nm, v) in vals:
-            v = strip_casts(strip_wrappers(v)) if v is not None else None
+            v = _undo_deref(strip_wrappers(v)) if v is not None else None
             if v is not None and v.get("k") == "call" and last(v.get("callee", "")) in NUM_PARSERS and (v.get("callee", "").startswith("std::") or "::" not in v.get("callee", "")):
                 out.append((e, nm))
+            elif v is not None and v.get("k") in ("call", "mcall") and v.get("callee") in numeric_returners(fb):
+                out.append((e, nm))      # `const std::optional<uint64_t> parsed = parseFullUInt(b, e, 16)`: the optional carries the peer's number
     return out
 
 
@@ -307,11 +335,36 @@ def length_keys(fb, f):
             nm = names.get(vid)
             if nm is None or nm in keys:
                 continue
-            vals = [strip_casts(strip_wrappers(v)) if v is not None else None for (_, v) in ds]
+            vals = [_undo_deref(strip_wrappers(v)) if v is not None else None for (_, v) in ds]      # `chunkSize = *parsed` is a copy like `chunkSize = parsed`
             if all(v is not None and (const_value(v) is not None or key_of(v) in keys) for v in vals) and any(key_of(v) in keys for v in vals):
                 keys.add(nm)
                 changed = True
     return keys
+
+
+def _undo_deref(n):
+    """the object behind `*opt` / `opt.value()` / `*ptr` (an optional that carries a value stands for the value)"""
+    n = strip_casts(n)
+    while n is not None:
+        if n.get("k") == "opcall" and n.get("op") == "*" and len(n.get("args", [])) == 1:
+            n = strip_casts(n["args"][0])
+        elif n.get("k") == "un" and n.get("op") == "*":
+            n = strip_casts(n.get("v"))
+        elif n.get("k") == "mcall" and last(n.get("callee", "")) == "value" and not n.get("args"):
+            n = strip_casts(n.get("obj"))
+        else:
+            break
+    return n
+
+
+def grows(n, is_target):
+    """the element appends to a string that is_target(lvalue node) selects: `S += x` or S.append(..) / push_back / insert — one meaning, two spellings.
+    Only the call made ON the target counts (in `S.append(a).append(b)` the outer call's receiver is the inner call, which is found itself)."""
+    if n.get("k") == "opcall" and n.get("op") == "+=" and n.get("args"):
+        return is_target(strip_casts(n["args"][0]))
+    if n.get("k") == "mcall" and last(n.get("callee", "")) in ("append", "push_back", "insert") and n.get("obj") is not None:
+        return is_target(strip_casts(n["obj"]))
+    return False
 
 
 def same_class_callee(fb, f, n):
@@ -371,8 +424,8 @@ def classify_rhs(i, keys):
     cv = const_value(i)
     if cv is not None:
         return ("const", cv)
-    if key_of(i) in keys:
-        return ("copy", key_of(i))
+    if key_of(_undo_deref(i)) in keys:
+        return ("copy", key_of(_undo_deref(i)))
     return "src"
 
 
@@ -382,7 +435,7 @@ def bound_leaf(keys):
         if not cp:
             return None
         op, l, r = cp
-        kl, kr = key_of(l), key_of(r)
+        kl, kr = key_of(_undo_deref(l)), key_of(_undo_deref(r))       # `*parsed > cap` bounds the optional's value
         flip = {"<": ">", ">": "<", "<=": ">=", ">=": "<=", "==": "==", "!=": "!="}
         if kr in keys and kl not in keys:
             l, r, op, kl, kr = r, l, flip[op], kr, kl
@@ -495,10 +548,46 @@ def r1(ctx, r):
 DIGITS10, DIGITS16 = set("0123456789"), set("0123456789abcdefABCDEF")
 
 
-def digits_test_dominates(f, e, strvar, base):
-    """the call element e is dominated by the rejecting edge of `S.find_first_not_of(DIGITS) != npos` (and S non-empty)"""
+def _all_of_digits(fb, f, c, strvar, want):
+    """c is (a bool local that names) `std::all_of(S.begin(), S.end(), pred)` over the whole of S with a predicate that accepts only characters of
+    `want`: decided by EVALUATING the predicate's return expression for every char value (finite.compile_expr), or std::isdigit / isxdigit"""
+    c = strip_casts(c)
+    if c is not None and c.get("k") == "var" and fb is not None:
+        si = single_init(fb, f, c)
+        c = strip_casts(si[1]) if si else c
+    if c is None or c.get("k") != "call" or c.get("callee") != "std::all_of" or len(c.get("args", [])) != 3:
+        return False
+    b, e_, pr = [strip_casts(strip_wrappers(a)) for a in c["args"]]
+    if not (b.get("k") == "mcall" and last(b.get("callee", "")) in ("begin", "cbegin") and key_of(b.get("obj")) == strvar and
+            e_.get("k") == "mcall" and last(e_.get("callee", "")) in ("end", "cend") and key_of(e_.get("obj")) == strvar):
+        return False
+    lfs = [lf for (ln, lf) in f.lambdas if pr.get("k") == "lambda" and lf.name == pr.get("fn") and lf.ok]
+    if len(lfs) != 1 or len(lfs[0].params) != 1:
+        return False
+    rets = [x for x in common.returns(lfs[0]) if "root" in x.raw]
+    if len(rets) != 1 or not isinstance(rets[0].node.get("v"), dict):
+        return False
+    v = strip_casts(rets[0].node["v"])
+    pn = lfs[0].params[0]["n"]
+    if v.get("k") == "call" and last(v.get("callee", "")) in (("isdigit",) if want is DIGITS10 else ("isxdigit",)) and [x["n"] for x in walk(v) if x.get("k") == "var"] == [pn]:
+        return True
+    try:
+        from ..finite import compile_expr
+        fnc, _, _ = compile_expr(rets[0].node["v"], [pn])
+        signed = "unsigned" not in lfs[0].params[0]["t"]
+        accepted = {ch & 0xFF for ch in (range(-128, 128) if signed else range(256)) if fnc(ch)}
+    except Exception:
+        return False
+    return bool(accepted) and accepted <= {ord(x) for x in want}
+
+
+def digits_test_dominates(f, e, strvar, base, fb=None):
+    """the call element e is dominated by the rejecting edge of `S.find_first_not_of(DIGITS) != npos`, or by the accepting edge of
+    `std::all_of(S.begin(), S.end(), <only digits>)` (and S non-empty)"""
     okd, oke = False, False
     for (c, truth) in dominating_facts(f, e):
+        if truth and _all_of_digits(fb, f, c, strvar, DIGITS10 if base == 10 else DIGITS16):
+            okd = True
         cp = common.cmp_parts(strip_casts(c))
         if cp:
             for a, b in ((cp[1], cp[2]), (cp[2], cp[1])):
@@ -542,7 +631,7 @@ def r2(ctx, r):
             continue
         sv = key_of(strip_views(n["args"][0]))
         base = const_value(strip_casts(n["args"][2])) if len(n["args"]) > 2 else 10
-        okd, oke = digits_test_dominates(f, e, sv, base or 10)
+        okd, oke = digits_test_dominates(f, e, sv, base or 10, fb)
         # alternative: consumed-length out-parameter compared with the size
         idx_ok = False
         if len(n["args"]) > 1 and strip_casts(n["args"][1]).get("k") == "un" and strip_casts(n["args"][1]).get("op") == "&":
@@ -627,10 +716,27 @@ def r2(ctx, r):
     # client: strict wrapper
     pf = fn(ctx, HC, "parseFullUInt", HCF)
     fc = [e for e in pf.stmts() if e.node.get("k") == "call" and last(e.node.get("callee", "")) == "from_chars"]
-    rets = [e for e in common.returns(pf) if const_value(strip_casts(e.node.get("v") or {})) is None]
+    # the returns that can report success: not the constant false, not std::nullopt (the wrapper may hand the value back as bool + out-parameter or as an optional)
+    rets = [e for e in common.returns(pf) if const_value(strip_casts(e.node.get("v") or {})) is None and "nullopt" not in show(e.node)]
     r.instance()
     pb, pe = (pf.params[0]["n"], pf.params[1]["n"]) if len(pf.params) >= 2 else (None, None)      # the range [begin, end) is the first two parameters, whatever they are called
-    ok = len(fc) == 1 and len(rets) == 1 and any(x.get("k") == "member" and last(x.get("n", "")) == "ptr" for (op, l, rr) in [q_ for y in walk(rets[0].node) for q_ in common.cmp_both(y)] if op == "==" and key_of(rr) == pe for x in walk(l)) and "errc" in show(rets[0].node)
+
+    def is_ptr_end(op, l, rr):
+        return op == "==" and key_of(rr) == pe and any(x.get("k") == "member" and last(x.get("n", "")) == "ptr" for x in walk(l))
+
+    def is_no_error(op, l, rr):
+        return op == "==" and any(x.get("k") == "member" and last(x.get("n", "")) == "ec" for x in walk(l)) and "errc" in show(rr)
+
+    def holds(e, pred):
+        """the test is part of the returned conjunction (`return r.ec == errc() && r.ptr == e`) or holds on every way to the return (guard clause before `return parsed`)"""
+        if any(pred(*q_) for y in walk(e.node) for q_ in common.cmp_both(y)) and not any(y.get("k") == "bin" and y.get("op") == "||" for y in walk(e.node)):
+            return True
+        for (c, truth) in dominating_facts(pf, e):
+            for (op, l, rr) in common.cmp_both(strip_casts(c)):
+                if (truth and pred(op, l, rr)) or (not truth and op == "!=" and pred("==", l, rr)):
+                    return True
+        return False
+    ok = len(fc) == 1 and len(rets) >= 1 and all(holds(e, is_ptr_end) and holds(e, is_no_error) for e in rets)
     emp = [b for b in pf.blocks.values() if b.cond is not None and any(op == "==" and key_of(l) == pb and key_of(rr) == pe for (op, l, rr) in common.cmp_both(strip_casts(b.cond)))]
     ok = ok and len(emp) == 1
     r.expect(ok, pf, None, "parseFullUInt strictness", "HttpClient::parseFullUInt no longer requires a non-empty range, errc{} and full consumption", okdesc="parseFullUInt: non-empty, no error, ptr == end")
@@ -669,12 +775,12 @@ def r2(ctx, r):
     # client siblings
     pcl = fn(ctx, HC, "parseContentLength", HCF)
     thr = [e for e in pcl.stmts() if e.node.get("k") == "throw" and "root" in e.raw]
-    cb = [b for b in pcl.blocks.values() if b.cond is not None and common.cmp_parts(b.cond) and common.cmp_parts(b.cond)[0] == "!=" and {key_of(common.cmp_parts(b.cond)[1]), key_of(common.cmp_parts(b.cond)[2])} == {"val", "result"}]
+    cb = [b for b in pcl.blocks.values() if b.cond is not None and common.cmp_parts(b.cond) and common.cmp_parts(b.cond)[0] == "!=" and {key_of(_undo_deref(common.cmp_parts(b.cond)[1])), key_of(_undo_deref(common.cmp_parts(b.cond)[2]))} == {"val", "result"}]
     r.instance()
     r.expect(len(thr) >= 3 and len(cb) == 1 and any(e.kind == "stmt" and e.node.get("k") == "throw" for e in _reach_until_ret(pcl, cb[0].succs[0])[:6]), pcl, None, "client Content-Length list",
              "HttpClient::parseContentLength no longer rejects differing list members", okdesc="client: differing Content-Length list members → HttpFramingError")
     phb = fn(ctx, HC, "parseHeaderBlock", HCF)
-    dup = [b for b in phb.blocks.values() if b.cond is not None and common.cmp_parts(b.cond) and common.cmp_parts(b.cond)[0] == "!=" and {key_of(strip_views(common.cmp_parts(b.cond)[1])), key_of(strip_views(common.cmp_parts(b.cond)[2]))} == {"value", "clValue"}]
+    dup = [b for b in phb.blocks.values() if b.cond is not None and common.cmp_parts(b.cond) and common.cmp_parts(b.cond)[0] == "!=" and {key_of(strip_views(_undo_deref(common.cmp_parts(b.cond)[1]))), key_of(strip_views(_undo_deref(common.cmp_parts(b.cond)[2])))} == {"value", "clValue"}]
     r.instance()
     r.expect(len(dup) == 1 and any(e.kind == "stmt" and e.node.get("k") == "throw" for e in _reach_until_ret(phb, dup[0].succs[0])[:8]), phb, None, "client duplicate Content-Length",
              "HttpClient::parseHeaderBlock no longer rejects a differing duplicate Content-Length", okdesc="client: differing duplicate Content-Length → HttpFramingError")
@@ -736,7 +842,8 @@ def r3(ctx, r):
     fb = ctx.fb()
     h = fn(ctx, HS, "handleIncomingData", HSF)
     # appends to the session buffer
-    apps = [e for e in h.stmts() if e.node.get("k") == "opcall" and e.node.get("op") == "+=" and show(strip_casts(e.node["args"][0])).endswith(".buffer")]
+    is_sbuf = lambda x: x is not None and show(x).endswith(".buffer")
+    apps = [e for e in h.stmts() if grows(e.node, is_sbuf)]
     # the test of the ACCUMULATED size against the buffer limit (other tests may mention the constant too, e.g. the 413 decision)
     capb = [b for b in h.blocks.values() if b.cond is not None and (lambda co: co is not None and "buffer.size()" in show(co[1]))(common.cmp_oriented(b.cond, lambda x: "MAX_BUFFER_SIZE" in show(x)))]
     r.instance()
@@ -911,8 +1018,58 @@ def r4(ctx, r):
     r.note("I/O-thread functions analysed: " + ", ".join(sorted({last(v[0].name) for v in funcs.values()})))
 
 
-def _cycles(f, avoid):
-    """back edges of the CFG with the blocks in `avoid` removed: [(from block, to block)]"""
+def _flag_exits(fb, f):
+    """CFG edges that cannot lie on a cycle because of a loop flag: `while (more) { …; if (more) { pos = comma + 1; } }` — the `more == false` edge of the
+    inner test leads, with no write to `more` on the way, back to the loop condition `more`, which then ends the loop.  {(block id, successor id)}.
+    Only for a plain bool local tested as the whole condition of a while/for, and only when the stretch from the edge to the loop condition is loop-free."""
+    out = set()
+    loops = {}
+    for b in f.blocks.values():
+        if b.term and b.term.get("k") in ("WhileStmt", "ForStmt") and b.cond is not None and len(b.succs) == 2:
+            c, st, sf = common.branch(b)
+            if c is not None and c.get("k") == "var" and "bool" in (c.get("t") or "") and st == b.succs[0]:
+                loops.setdefault(_vid(c), []).append(b)
+    if not loops:
+        return out
+    for b in f.blocks.values():
+        if b.cond is None or len(b.succs) != 2 or (b.term or {}).get("k") in ("WhileStmt", "ForStmt"):
+            continue
+        c, st, sf = common.branch(b)
+        if c is None or c.get("k") != "var" or _vid(c) not in loops or sf is None:
+            continue
+        defs = {id(e) for (e, _) in var_defs(fb, f).get(_vid(c), [])}
+        for L in loops[_vid(c)]:
+            # from the false edge: no write to the flag before the loop condition, and no loop of its own in between
+            seen, work, ok = set(), [sf], True
+            while work and ok:
+                x = work.pop()
+                if x == L.id or x in seen:
+                    continue
+                seen.add(x)
+                if any(id(e) in defs for e in f.blocks[x].elems):
+                    ok = False
+                work.extend(y for y in f.blocks[x].succs if y is not None)
+            if ok and L.id not in seen and not any(y in seen for x in seen for y in f.blocks[x].succs if y is not None and y != L.id and _reaches(f, y, x, seen)):
+                if not any(id(e) in defs for e in L.elems):
+                    out.add((b.id, sf))
+    return out
+
+
+def _reaches(f, a, b, within):
+    seen, work = set(), [a]
+    while work:
+        x = work.pop()
+        if x == b:
+            return True
+        if x in seen or x not in within:
+            continue
+        seen.add(x)
+        work.extend(y for y in f.blocks[x].succs if y is not None)
+    return False
+
+
+def _cycles(f, avoid, drop=()):
+    """back edges of the CFG with the blocks in `avoid` (and the edges in `drop`) removed: [(from block, to block)]"""
     import sys
     sys.setrecursionlimit(max(sys.getrecursionlimit(), 10000))
     color, cyc = {}, []
@@ -920,7 +1077,7 @@ def _cycles(f, avoid):
     def dfs(b):
         color[b] = 1
         for s_ in f.blocks[b].succs:
-            if s_ is None or s_ in avoid:
+            if s_ is None or s_ in avoid or (b, s_) in drop:
                 continue
             if color.get(s_) == 1:
                 cyc.append((b, s_))
@@ -1082,7 +1239,7 @@ def r5(ctx, r):
             if is_root or has_cycle:
                 raise AnalysisBroken("%s: no statement that consumes input recognised%s" % (last(f.name), " although it loops" if has_cycle else ""))
             continue
-        cyc = _cycles(f, prog)
+        cyc = _cycles(f, prog, _flag_exits(fb, f))
         r.instance()
         if cyc:
             # a call on the cycle that is handed a scan position / scanned buffer / consumed variable by non-const reference (and is not one
@@ -1090,7 +1247,7 @@ def r5(ctx, r):
             tracked = {_pkey(sc["start"]) for sc in scans(fb, f)} | {sc["buf"] for sc in scans(fb, f)} | (moved - {None})
             maybe = {e.block.id: e for e in f.stmts() if e.node.get("k") in ("call", "mcall") and e.node.get("callee", "") not in names and
                      any(_pkey(a_) in tracked for a_ in _out_args(fb, e.node))}
-            if maybe and not _cycles(f, prog | set(maybe)):
+            if maybe and not _cycles(f, prog | set(maybe), _flag_exits(fb, f)):
                 e_ = list(maybe.values())[0]
                 raise AnalysisBroken("%s: the loop hands `%s` by reference to %s, which this rule does not follow — it cannot see whether that call consumes input" % (last(f.name), ", ".join(sorted(_pkey(a_) for a_ in _out_args(fb, e_.node) if _pkey(a_) in tracked)), last(e_.node.get("callee", ""))))
             b = f.blocks[cyc[0][1]]
@@ -1112,7 +1269,7 @@ def r6(ctx, r):
     fb = ctx.fb()
     h = fn(ctx, HS, "handleIncomingData", HSF)
     # after the append the callback's segment (data, len) is dead: every decision reads the accumulated buffer
-    app = [e for e in h.stmts() if e.node.get("k") == "opcall" and e.node.get("op") == "+=" and show(strip_casts(e.node["args"][0])).endswith(".buffer")]
+    app = [e for e in h.stmts() if grows(e.node, lambda x: x is not None and show(x).endswith(".buffer"))]
     whole = [e for e in h.stmts() if asg(e.node) and key_of(asg(e.node)[0]) == "dataStr" and show(strip_views(asg(e.node)[1])).endswith(".buffer")]
     r.instance()
     ok = len(app) == 1 and len(whole) == 1 and elem_dominates(h, app[0], whole[0], eh=False)
@@ -1133,7 +1290,9 @@ def r6(ctx, r):
     dec = [e for e in h.stmts() if (e.node.get("k") == "mcall" and last(e.node.get("callee", "")) == "findChunkedRequestEnd") or
            (e.node.get("k") == "decl" and any(v["n"] == "totalExpectedLength" for v in e.node["vars"]))]
     for var in ("contentLength", "hasContentLength", "isChunked"):
-        inits = [e for e in h.stmts() if (e.node.get("k") == "decl" and any(v["n"] == var and const_value(strip_casts(v.get("init") or {})) == 0 for v in e.node["vars"]))
+        # (a declaration WITH an initialiser on the way is a re-initialisation whatever the value: the variable is created afresh for this request,
+        #  e.g. `const bool isChunked = hasTE && transferEncodingIsChunked(te)` inside the loop; a hoisted declaration is not on the way)
+        inits = [e for e in h.stmts() if (e.node.get("k") == "decl" and any(v["n"] == var and v.get("init") is not None for v in e.node["vars"]))
                  or (asg(e.node) and key_of(asg(e.node)[0]) == var and const_value(strip_casts(asg(e.node)[1])) == 0)]
         r.instance()
         w = None
@@ -1145,15 +1304,38 @@ def r6(ctx, r):
                  witness=witness_str(h, w), okdesc="`%s` re-initialised for every extracted request" % var)
     # consume exactly [0, requestEndPos)
     req = [v for e in h.stmts() if e.node.get("k") == "decl" for v in e.node["vars"] if v["n"] == "requestData"]
-    rest = [e for e in h.stmts() if asg(e.node) and key_of(asg(e.node)[0]) == "dataStr" and "substr" in show(asg(e.node)[1])]
+    # two spellings each: the request is X.substr(0, E) or std::string(X, 0, E); the remainder is X = X.substr(E) or X.erase(0, E)
+    def prefix_of(n):
+        n = strip_views(n)
+        if n is None:
+            return None
+        a = [x for x in n.get("args", []) if not x.get("def")]
+        if n.get("k") == "mcall" and last(n.get("callee", "")) == "substr" and len(a) == 2 and const_value(strip_casts(a[0])) == 0:
+            return key_of(n.get("obj")), key_of(a[1])
+        if n.get("k") == "ctor" and n.get("cls") == "std::basic_string" and len(a) == 3 and const_value(strip_casts(a[1])) == 0:
+            return key_of(strip_views(a[0])), key_of(a[2])
+        return None
+
+    def drops_prefix(n):
+        a = asg(n)
+        if a and key_of(a[0]):
+            v = strip_views(a[1])
+            va = [x for x in (v or {}).get("args", []) if not x.get("def")]
+            if v is not None and v.get("k") == "mcall" and last(v.get("callee", "")) == "substr" and key_of(v.get("obj")) == key_of(a[0]) and len(va) == 1:
+                return key_of(a[0]), key_of(va[0])
+        if n.get("k") == "mcall" and last(n.get("callee", "")) == "erase" and n.get("callee", "").startswith("std::basic_string"):
+            va = [x for x in n.get("args", []) if not x.get("def")]
+            if len(va) == 2 and const_value(strip_casts(va[0])) == 0:
+                return key_of(n.get("obj")), key_of(va[1])
+        return None
+    rest = [e for e in h.stmts() if (drops_prefix(e.node) or (None,))[0] == "dataStr"]
     back = [e for e in h.stmts() if asg(e.node) and show(strip_casts(asg(e.node)[0])).endswith(".buffer") and key_of(strip_views(asg(e.node)[1])) == "dataStr"]
     r.instance()
     ok = len(req) == 1 and len(rest) == 1 and len(back) == 1
     if ok:
-        i = strip_views(req[0]["init"])
-        j = strip_views(asg(rest[0].node)[1])
-        ok = i.get("k") == "mcall" and last(i["callee"]) == "substr" and const_value(strip_casts(i["args"][0])) == 0 and key_of(i["args"][1]) == "requestEndPos" and key_of(i.get("obj")) == "dataStr"
-        ok = ok and j.get("k") == "mcall" and last(j["callee"]) == "substr" and key_of(j["args"][0]) == "requestEndPos" and len([a for a in j["args"] if not a.get("def")]) == 1 and elem_dominates(h, rest[0], back[0], eh=False)
+        reqe = [e for e in h.stmts() if e.node.get("k") == "decl" and req[0] in e.node["vars"]][0]
+        ok = prefix_of(req[0]["init"]) == ("dataStr", "requestEndPos") and drops_prefix(rest[0].node) == ("dataStr", "requestEndPos") and elem_dominates(h, rest[0], back[0], eh=False) and \
+            elem_dominates(h, reqe, rest[0], eh=False)
     r.expect(ok, h, None, "consumed range", "the dispatched request is not dataStr[0, requestEndPos) with the remainder dataStr[requestEndPos, …) written back to the session buffer (bytes lost or duplicated between pipelined requests)",
              okdesc="request = [0, end), buffer = [end, …)")
     resume_rule(r, fb)
@@ -1412,28 +1594,41 @@ def r7(ctx, r):
     f = fn(ctx, HC, "determineFraming", HCF)
     vocab = Vocab(["nobody", "te", "cl"])
 
+    fb = ctx.fb()
+    hits = {"te": 0, "cl": 0}
+
+    def field_lit(x):
+        """the header-field name an expression looks up: the one string literal in it, or in the initialiser of the (iterator) local it reads"""
+        lits = [y.get("v") for y in walk(x) if y.get("k") == "str"]
+        if not lits:
+            for y in walk(x):
+                si = single_init(fb, f, y) if y.get("k") == "var" else None
+                if si is not None:
+                    lits += [z.get("v") for z in walk(si[1]) if z.get("k") == "str"]
+        return lits[0] if len(lits) == 1 else None
+
     def leaf(n):
-        t = show(n)
-        cp = common.cmp_parts(n)
-        if cp and "Transfer-Encoding" not in t and cp[0] == "!=" and key_of(cp[1]) == "teIt":
-            return A("te")
-        if cp and cp[0] == "!=" and key_of(cp[1]) == "clIt":
-            return A("cl")
+        # presence of a header field, however it is asked: find(F) != end(), count(F) != 0 / > 0 (and the negations == end(), == 0); the field is
+        # identified by its name literal, the locals involved may be called anything
+        for (op, l, rr) in common.cmp_both(n):
+            rs = strip_casts(rr)
+            if op in ("!=", "==", ">") and (const_value(rs) == 0 or (rs is not None and rs.get("k") == "mcall" and last(rs.get("callee", "")) in ("end", "cend"))):
+                a = {"Transfer-Encoding": "te", "Content-Length": "cl"}.get(field_lit(l))
+                if a:
+                    hits[a] += 1
+                    return A(a) if op in ("!=", ">") else Not(A(a))
         return None
     pa = PredAbs(f, vocab, leaf, lambda e: None, track_bools=True)
     rets = []
     for e in common.returns(f):
-        modes = [last(x["n"]) for x in walk(e.node) if x.get("k") == "enum"]
-        if modes:
-            rets.append((e, modes[0]))
+        # (a return may name two modes: `return {finalIsChunked ? Chunked : CloseDelimited, 0}` — each must be allowed where the return stands)
+        for m_ in dict.fromkeys(last(x["n"]) for x in walk(e.node) if x.get("k") == "enum"):
+            rets.append((e, m_))
     if len(rets) < 5:
         raise AnalysisBroken("determineFraming: %d returns with a BodyMode (floor 5)" % len(rets))
-    bnames = {v: k for k, v in pa.boolvars.items()} if hasattr(pa, "boolvars") else {}
-    te = [a for a in pa.v.atoms if a.startswith("b:hasTE")]
-    cl = [a for a in pa.v.atoms if a.startswith("b:hasCL")]
-    if not te or not cl:
-        raise AnalysisBroken("determineFraming: hasTE/hasCL flags not tracked")
-    TE, CL = A(te[0]), A(cl[0])
+    if not hits["te"] or not hits["cl"]:
+        raise AnalysisBroken("determineFraming: the tests for the presence of Transfer-Encoding / Content-Length were not recognised")
+    TE, CL = A("te"), A("cl")
     nob = [b for b in f.blocks.values() if b.cond is not None and common.cmp_parts(b.cond) and const_value(common.cmp_parts(b.cond)[2]) in (204, 304)]
     first_nobody = [e for e, m in rets if m == "NoBody"]
     for (e, m) in rets:
@@ -1524,16 +1719,23 @@ def r8(ctx, r):
     if len(calls) != 1:
         raise AnalysisBroken("handleIncomingData: %d calls of %s" % (len(calls), last(H.name)))
     argv = key_of(strip_views(calls[0].node["args"][0]))
-    accum = [e for e in h.stmts() if e.node.get("k") == "opcall" and e.node.get("op") == "+=" and key_of(e.node["args"][0]) == argv]
+    accum = [e for e in h.stmts() if grows(e.node, lambda x: key_of(x) == argv)]       # `list += v + ","` or `list.append(v).append(",")`
     # every Transfer-Encoding line feeds the list: the accumulation sits in the header loop behind the field-name test only
     okacc = len(accum) == 1 and any(any(x.get("k") == "str" and x.get("v") == "transfer-encoding" for x in walk(c)) and t for (c, t) in dominating_facts(h, accum[0]))
     r.expect(okacc, h, accum[0] if accum else calls[0], "transfer coding list", "the argument of %s is not the concatenation of every Transfer-Encoding field line: with repeated lines framing looks at one of them only" % last(H.name),
              okdesc="all Transfer-Encoding lines form one list")
     # the decision variable, the rejection of everything else, and its use as THE decoding decision
+    # (assigned, or declared with the helper's result in its initialiser: `const bool isChunked = hasTE && helper(list)`)
     dv = [e for e in h.stmts() if asg(e.node) and any(x is calls[0].node for x in walk(asg(e.node)[1]))]
+    flag = key_of(asg(dv[0].node)[0]) if dv else None
+    if not dv:
+        for e in h.stmts():
+            if e.node.get("k") == "decl":
+                for v in e.node["vars"]:
+                    if v.get("init") is not None and any(x is calls[0].node for x in walk(v["init"])) and "bool" in (v.get("t") or ""):
+                        dv, flag = [e], v["n"]
     r.instance()
     okrej = False
-    flag = key_of(asg(dv[0].node)[0]) if dv else None
     if flag:
         for b in h.blocks.values():
             bc, bst, bsf = common.branch(b) if b.cond is not None else (None, None, None)
@@ -1638,7 +1840,6 @@ def anchors(ctx, r):
     # (findChunkedRequestEnd, advanceChunked, frameResponse, parseFullUInt: no names — their rules find positions, match results, parsed
     # lengths and buffers by data flow)
     tab = [(fn(ctx, HS, "handleIncomingData", HSF), ["contentLength", "parsedLength", "hasContentLength", "isChunked", "totalExpectedLength", "invalidChunkSize", "dataStr", "headerEnd", "headerSection", "requestData", "requestEndPos", "value"]),
-           (fn(ctx, HC, "determineFraming", HCF), ["teIt", "clIt"]),
            (fn(ctx, HC, "parseContentLength", HCF), ["val", "result"]), (fn(ctx, HC, "parseHeaderBlock", HCF), ["value", "clValue"]), (fn(ctx, HC, "executeRequest", HCF), ["responseData", "effectiveCap", "len"])]
     for f, names in tab:
         common.require_names(f, names)
